@@ -50,6 +50,9 @@ class C08(Harness):
         out.append({'init': [['p', 'skipbind(S2.w)'], ['q', 'S1.w']]})
         out.append({'init': [['b', 'S1.v']], 'bslice': True})
         out.append({'init': [], 'bslice': True})
+        # a target Parameter that is not copied per instance (links are installed on the instance all the same)
+        out.append({'init': [], 'shared_q': True})
+        out.append({'init': [['q', 'S1.w']], 'shared_q': True})
         return out
 
     def depth(self, tier, cfg):
@@ -73,13 +76,13 @@ class C08(Harness):
 
         class Tgt(param.Parameterized):
             p = param.Parameter(default=-1, allow_refs=True)
-            q = param.Parameter(default=-1, allow_refs=True)
+            q = param.Parameter(default=-1, allow_refs=True, **({'per_instance': False} if cfg.get('shared_q') else {}))
             n = param.Parameter(default=-1, allow_refs=True, nested_refs=True)
             b = param.Number(default=5, bounds=(0, 100), allow_refs=True)
 
         S1, S2 = Src(v=1, w=2), Src(v=3, w=4)
         R = param.rx(7)
-        w = dict(param=param, S1=S1, S2=S2, R=R, Src=Src, Tgt=Tgt, stack=[])
+        w = dict(param=param, S1=S1, S2=S2, R=R, Src=Src, Tgt=Tgt, stack=[], cfg=cfg)
         model = {'src': {'S1': {'v': 1, 'w': 2}, 'S2': {'v': 3, 'w': 4}, 'R': 7}, 'link': {'p': None, 'q': None, 'n': None, 'b': None},
                  'plain': {'p': -1, 'q': -1, 'n': -1, 'b': 5}, 'ctx': [], 'stale': [], 'held': {'p': -1, 'q': -1, 'n': -1, 'b': 5}}
         kw = {}
@@ -216,6 +219,7 @@ class C08(Harness):
             ops.append(['close'])
         ops.append(['update2', 70, 71])
         ops.append(['srcboth', 'S1', s['S1']['v'] + 1, s['S1']['w'] + 1])      # two parameters of one source changed in one batch
+        ops += [['trigger', 'p'], ['trigger', 'q']]          # re-announcing a linked value is not an override: the link stays
         return ops
 
     def apply(self, w, model, op):
@@ -246,6 +250,12 @@ class C08(Harness):
                     raise
             # a linked value that is invalid for the target is not installed; what the target holds meanwhile is not specified
             model['stale'] = invalid
+        elif k == 'trigger':
+            T.param.trigger(op[1])
+            if w['cfg'].get('cascade') and op[1] == 'p':
+                # the user watcher of p runs and overrides q with its plain value
+                model['link']['q'] = None
+                model['plain']['q'] = 77
         elif k == 'srcboth':
             model['src'][op[1]]['v'] = op[2]
             model['src'][op[1]]['w'] = op[3]
